@@ -18,6 +18,42 @@ CHECKS = {
     },
 }
 
+MODEL = TRUST + "the reference model sim/harness/model.go (written from docs/ and the property statements; abstains where they are silent - DESIGN.md section 2.6)."
+REL = TRUST + "the relational oracle embeds no model of zog."
+
+CHECKS.update({
+    "C01": {
+        "technique": "deterministic simulation: seeded schema/input worlds under simulator-chosen field visit orders and recycled pools + independent re-evaluation of the destination",
+        "text": "Seeded exploration of random schema trees, almost-valid inputs, both modes, every field visit order decided by the simulator and pools recycled across warm-up calls; whenever a call returns no issues every declared test, Required and NotNil is re-evaluated on the destination with predicates written independently of zog. Evidence by sampling; bounded depth (<=3) and width (<=4).",
+        "note": TRUST + "independent predicates for the generated tests (sim/harness/model.go TestPass).",
+        "design": "DESIGN.md §3 C01",
+    },
+    "C02": {
+        "technique": "deterministic simulation: seeded schema/input worlds under simulator-chosen visit orders and pools + executable reference model (multiset of path, code, type; nil-ness)",
+        "text": "Seeded exploration of random schema trees with inputs biased to several simultaneous violations; each result is compared with an executable reading of the documentation as a multiset of (path, code, type) and for nil-ness, under simulator-chosen visit orders and pool recycling. Evidence by sampling within small bounds.",
+        "note": MODEL,
+        "design": "DESIGN.md §3 C02",
+    },
+    "C05": {
+        "technique": "deterministic simulation: relational oracle, schema with Catch vs. the same schema without, same simulator-chosen visit orders",
+        "text": "Seeded exploration of schemas with catching primitives at every placement; S and its Catch-free twin run on the same input under the same simulator-chosen visit orders; catching nodes must be silent and hold the catch value exactly when the twin fails there, everything else must be identical.",
+        "note": REL,
+        "design": "DESIGN.md §3 C05",
+    },
+    "C09": {
+        "technique": "deterministic simulation: the simulator owns every map-range order; relational oracle across permutation vectors and insertion orders",
+        "text": "Each generated (schema, data) is executed under 2-6 permutation vectors of every struct field visit (the simulator replaces Go's map iteration order), with reversed schema-map insertion order and reversed input key order; issue maps minus $first and, on success, destinations must be identical.",
+        "note": REL,
+        "design": "DESIGN.md §3 C09",
+    },
+    "C13": {
+        "technique": "deterministic simulation: relational oracle Validate(&v) vs Parse(toMap(v)) under independently drawn visit orders and pool states",
+        "text": "Seeded exploration of schemas and fully populated values; Validate in place and Parse of the same value from its map form, each under its own simulator-drawn visit orders and pool recycling, must report the same (path, code, type, message) and leave equal values.",
+        "note": REL,
+        "design": "DESIGN.md §3 C13",
+    },
+})
+
 NOT_APPLICABLE = {
     "C03": "pure function of (schema options, input): no schedule, history, fault or shared state enters it; DESIGN.md §4",
     "C17": "builder-time semantics, a pure function of the chain of builder calls; nothing nondeterministic or faulty to simulate; DESIGN.md §4",
